@@ -458,6 +458,17 @@ def generate_bufr_message(decoder, s, info_only=False, continue_on_error=False, 
             # This is also the case for a message rejected by the filter.
             if info_only or not matched:
                 bufr_message.serialized_bytes = s[idx_start: idx_start + bufr_message.length.value]
+                if (not info_only
+                        and bufr_message.data_category.value == DATA_CATEGORY_DEFINE_BUFR_TABLES
+                        and bufr_message.n_subsets.value > 0):
+                    # The filter only decides what is yielded. The definitions of a rejected
+                    # message still govern the decoding of the messages that follow it.
+                    definition_message = decoder.process(
+                        s[idx_start:], start_signature=None, info_only=False, *args, **kwargs
+                    )
+                    _, b_entries, d_entries = BufrTableDefinitionProcessor().process(definition_message)
+                    TableGroupCacheManager.invalidate()
+                    TableGroupCacheManager.add_extra_entries(b_entries, d_entries)
             else:
                 if (bufr_message.data_category.value == DATA_CATEGORY_DEFINE_BUFR_TABLES
                         and bufr_message.n_subsets.value > 0):
